@@ -26,7 +26,7 @@ from c15lib import cps, text_of
 
 LIT_KINDS = ("IntLit", "RatLit", "FloatLit", "ImaginaryFloatLit", "StringLit", "BytesLit", "FormatString")
 CONFIGS = ("full", "num", "num2", "str")
-DEPTH = {"quick": 1500, "thorough": 10000}      # nesting depth of the delimiter / keyword towers
+DEPTH = {"quick": 3000, "thorough": 10000}      # nesting depth of the delimiter / keyword towers
 TLC_ENV = None
 
 
@@ -94,8 +94,11 @@ def observe(texts):
     return lexr, parr, evs
 
 
-def make_event(text, lex_st, par_st, ev_st):
-    e = {"text": cps(text), "lexo": lex_st.get("o"),
+def make_event(text, lex_st, par_st, ev_st, mode="full"):
+    if mode == "protocol":
+        return {"mode": mode, "text": [], "lexo": lex_st.get("o"), "toks": [], "parse": par_st.get("o"),
+                "evo": "none", "val": {"t": "none"}}
+    e = {"mode": mode, "text": cps(text), "lexo": lex_st.get("o"),
          "toks": [c15lib.spec_token(t) for t in lex_st.get("tokens", [])] if lex_st.get("o") == "ok" else [],
          "parse": par_st.get("o"), "evo": "none", "val": {"t": "none"}}
     if ev_st is not None:
@@ -296,20 +299,28 @@ def gen_mutations(rng, progs, per):
 
 
 def gen_delims(rng, n, depth):
+    """(texts judged in full, towers of the full depth judged by outcome only)"""
     out = []
+    towers = []
     opens, closes = "([{", ")]}"
     for _ in range(n):
         k = rng.choice([1, 2, 3, 5, 8, 13, 30])
         out.append("".join(rng.choice("()[]{}" + " 1a,:") for _ in range(k)))
-    for d in (1, 2, 50, depth):
+    for d in (1, 2, 50, 300, depth):
+        tw = []
         for o, c in zip(opens, closes):
-            out += [o * d, c * d, o * d + "1" + c * d, o * d + "1" + c * (d - 1), o * (d - 1) + "1" + c * d,
-                    (o + c) * min(d, 2000)]
-        out += ["\\x -> " * d + "1", "-" * d + "1", "if (1) " * d + "2", "a" + "[0]" * d, "f" + "(1)" * d,
-                "1" + " + 1" * d, "..." * d + "x", "literally " * d + "x", "try " * d + "1" + " catch x -> 1" * d,
-                "for (x <- y) " * d + "1", "break " * d, "a" + "::b" * d, "a:" * d + "b", "f!" * d,
-                "B[" + "1," * d + "]", "{" + "1:2," * d + "}", "1 `f` " * d + "2", "switch (x) " + "case 1 -> 1 " * d,
-                ";" * d, "1;" * d, "1," * d, "\\" * d, "\\\\" * d]
+            tw += [o * d, c * d, o * d + "1" + c * d, o * d + "1" + c * (d - 1), o * (d - 1) + "1" + c * d,
+                   (o + c) * min(d, 2000)]
+        tw += ["\\x -> " * d + "1", "-" * d + "1", "if (1) " * d + "2", "a" + "[0]" * d, "f" + "(1)" * d,
+               "1" + " + 1" * d, "..." * d + "x", "literally " * d + "x", "try " * d + "1" + " catch x -> 1" * d,
+               "for (x <- y) " * d + "1", "break " * d, "a" + "::b" * d, "a:" * d + "b", "f!" * d,
+               "B[" + "1," * d + "]", "{" + "1:2," * d + "}", "1 `f` " * d + "2", "switch (x) " + "case 1 -> 1 " * d,
+               ";" * d, "1;" * d, "1," * d, "\\" * d, "\\\\" * d, "F'" + "{" * d + "1" + "}" * d + "'",
+               "F'{" * min(d, 40) + "1" + "}'" * min(d, 40)]
+        if d > 300:
+            towers.extend(tw)
+        else:
+            out.extend(tw)
     out += ["B[256]", "B[-1]", "B[1,,2]", "B[", "B[1", "B[1,", "B[99999999999999999999999]", "\\99999999999999999999999999",
             "\\0", "\\1 + \\2", "🐉peek 99999999999999999999999", "🐉call 99999999999999999999 1", "🐉lambda 99999999999999999999 1",
             "🐉lambda [", "🐉lambda [a] ... 1", "🐉for (x) 1", "🐉while (1) 2", "🐉push 1", "🐉pop", "🐉frame 1", "🐉0 + 🐉9",
@@ -322,7 +333,7 @@ def gen_delims(rng, n, depth):
             "a: int = 1", "a: = 1", "(a: int, b) := 1, 2", "...", "...a", "a...", "[...a, ...b] = c", "_ = 1", "_", "__", "import", "import 'x'",
             "freeze", "freeze x", "literally", "throw", "return", "break", "continue", "break break continue", "break continue continue",
             "null null", "and", "or", "1 and", "or 1", "coalesce", "a coalesce", "yield", "into", "else", "case", "catch", "->", "<-", "<<-", "=", "!"]
-    return out
+    return out, towers
 
 
 def gen_runaway(rng, big):
@@ -520,45 +531,61 @@ def gen_classes(rng, tier):
 
 
 def gen_long(tier):
+    """(literals validated exactly, 10^4-digit texts judged by outcome only).  Radix 2^k digit strings are
+    regrouped into limbs by the specification in linear time; for the other radices TLC's exact conversion
+    is quadratic, which bounds the length that can be validated digit by digit"""
     n = 10000
-    out = ["1" * n, "9" * n, "0" * n + "7", "0x" + "f" * n, "0b" + "10" * (n // 2), "0o" + "7" * n, "36r" + "z" * (n // 2), "7r" + "6" * (n // 2),
-           "64r" + "_" * (n // 2), "1" * n + "q", "1" * n + ".0", "1" * n + "f", "1" * n + "i", "0." + "0" * n + "1", "1e" + "9" * n, "1e-" + "9" * n,
-           "1" * n + "r1", "'\\u{" + "0" * n + "41}'", "'\\u" + "0" * n + "41'", "'\\u{" + "F" * 9 + "}'", "'\\u{100000041}'", "'\\uFFFFFFFFF'",
-           "\"\\u{FFFFFFFFF}\"", "B'\\u(FFFFFFFF0)'", "F'\\u[123456789]'"]
+    m = 600 if tier == "quick" else 2000
+    full = ["0x" + "f" * n, "0X" + "123456789abcdefABCDEF0" * (n // 22), "0b" + "10" * (n // 2), "0o" + "7" * n, "0o" + "1234567" * (n // 7),
+            "32r" + "v" * n, "4r" + "3210" * (n // 4), "2r" + "1" * n, "16r" + "F" * n, "64r" + "_" * n, "64r" + "Az09+/-_" * (n // 8),
+            "1" * m, "9" * m, "0" * n + "7", "36r" + "z" * (m // 2), "7r" + "6" * (m // 2), "1" * m + "q", "1" * m + "r1",
+            # floats: far out of range literals are classified by length, in range ones are evaluated
+            "1" * n + ".0", "1" * n + "f", "1" * n + "i", "0." + "0" * n + "1", "1e" + "9" * n, "1e-" + "9" * n, "0e" + "9" * n,
+            "1" * n + "e-" + "9" * 4, "0." + "0" * 300 + "1" * m, "1" * 300 + "." + "1" * m,
+            "'\\u{" + "0" * n + "41}'", "'\\u" + "0" * n + "41'", "'\\u{" + "F" * 9 + "}'", "'\\u{100000041}'", "'\\uFFFFFFFFF'",
+            "\"\\u{FFFFFFFFF}\"", "B'\\u(FFFFFFFF0)'", "F'\\u[123456789]'", "'\\u{FFFFFFFF}'", "'\\u{FFFFFFFFFFFFFFFFFFFF}'"]
+    proto = ["1" * n, "9" * n, "123456789" * (n // 9), "1" * n + "q", "36r" + "z" * n, "7r" + "6" * n, "1" * n + "r1", "10r" + "9" * n,
+             "0." + "1234567890" * (n // 10), "1" * n + "." + "9" * n + "e-" + "9" * 4, "x" * n, "'" + "a" * n + "'", "+" * n, "_" * n]
     if tier == "thorough":
-        out += ["123456789" * (n // 3), "0x" + "123456789abcdef" * (n // 10), "0." + "1234567890" * 200, "9" * 3000 + "e-2700"]
-    return out
+        full += ["0x" + "f" * (10 * n), "123456789" * (m // 9), "0." + "1234567890" * 200, "9" * 1000 + "e-700"]
+        proto += ["1" * (10 * n), "(" * n + "1" + ")" * n]
+    return full, proto
 
 
 def drive(rep, tier, seed, wd, mc_strings):
     rng = random.Random(seed)
     progs = c15lib.corpus()
-    groups = []      # (generator name, texts)
+    groups = []      # (generator name, texts, how judged)
     q = tier == "quick"
-    groups.append(("alt", alternates(mc_strings, rng, 24000 if q else 150000)))
-    groups.append(("corpus", list(progs)))
-    groups.append(("soup", gen_soups(rng, 1500 if q else 20000)))
+    groups.append(("alt", alternates(mc_strings, rng, 24000 if q else 150000), "full"))
+    groups.append(("corpus", list(progs), "full"))
+    groups.append(("soup", gen_soups(rng, 1500 if q else 20000), "full"))
     sample = progs if not q else rng.sample(progs, min(len(progs), 220))
-    groups.append(("mutation", gen_mutations(rng, sample, 4 if q else 20)))
-    groups.append(("delims", gen_delims(rng, 150 if q else 2000, DEPTH[tier])))
-    groups.append(("runaway", gen_runaway(rng, 2000 if q else 100000)))
+    groups.append(("mutation", gen_mutations(rng, sample, 4 if q else 20), "full"))
+    delims, towers = gen_delims(rng, 150 if q else 2000, DEPTH[tier])
+    groups.append(("delims", delims, "full"))
+    groups.append(("towers", towers, "protocol"))
+    groups.append(("runaway", gen_runaway(rng, 2000 if q else 20000), "full"))
     ints = gen_int_literals(rng, tier)
-    groups.append(("intlit", [t for t, _ in ints]))
-    groups.append(("floatlit", gen_float_literals(rng, tier)))
+    groups.append(("intlit", [t for t, _ in ints], "full"))
+    groups.append(("floatlit", gen_float_literals(rng, tier), "full"))
     strs = gen_string_literals(rng, tier)
-    groups.append(("strlit", [t for t, _, _ in strs]))
-    groups.append(("classes", gen_classes(rng, tier)))
-    groups.append(("long", gen_long(tier)))
-    texts, gens = [], []
+    groups.append(("strlit", [t for t, _, _ in strs], "full"))
+    groups.append(("classes", gen_classes(rng, tier), "full"))
+    longs, longp = gen_long(tier)
+    groups.append(("long", longs, "full"))
+    groups.append(("long-protocol", longp, "protocol"))
+    texts, gens, modes = [], [], []
     seen = set()
-    for g, ts in groups:
+    for g, ts, md in groups:
         for t in ts:
             if t not in seen:
                 seen.add(t)
                 texts.append(t)
                 gens.append(g)
+                modes.append(md)
     lexr, parr, evs = observe(texts)
-    events = [make_event(t, lexr[i], parr[i], evs.get(i)) for i, t in enumerate(texts)]
+    events = [make_event(t, lexr[i], parr[i], evs.get(i), modes[i]) for i, t in enumerate(texts)]
     # generator sanity (not a verdict): what the implementation decoded vs the value the generator rendered
     want = {}
     for t, v in ints:
